@@ -156,6 +156,22 @@ def c09(res, r):
                 viol(res, r, 'the client transmitted something that is not a packet of a send() call, a PONG, a CLOSE or the probe handshake', 'wire-form', step=i, wire=repr(c[1])[:60])
         if o[0] == 'http' and o[2] == 'post' and len(o[3]) > 16:
             viol(res, r, 'a POST body holds more packets than a server accepts', 'batch-limit', step=i, n=len(o[3]))
+    # within one connection the queue is FIFO: what has been transmitted is a prefix of what was sent on that connection
+    epoch_of_step, e = [], 0
+    for os in r.outs:
+        e += sum(1 for o in os if o[0] == 'ev' and o[1] == 'connect')
+        epoch_of_step.append(e)
+    by_epoch = collections.OrderedDict()
+    for step, op in enumerate(r.log):
+        if op[0] == 'call' and op[1] == 'send' and step > 0 and r.views[step - 1][0] == 'connected':
+            by_epoch.setdefault(epoch_of_step[step], []).append((op[2], op[3]))
+    wset = set(wire)
+    for ep, calls in by_epoch.items():
+        sent_flags = [c in wset for c in calls]
+        if any(later and not earlier for earlier, later in zip(sent_flags, sent_flags[1:])) or (True in sent_flags and False in sent_flags[:len(sent_flags) - sent_flags[::-1].index(True)]):
+            k = sent_flags.index(False)
+            viol(res, r, 'a send() call was never transmitted although later ones of the same connection were', 'send-loss', missing=calls[k], position=k, n=len(calls))
+            break
     if len(set(wire)) != len(wire):
         viol(res, r, 'a send() call was transmitted more than once', 'send-once', wire=wire[:8])
     pos = {c: k for k, c in enumerate(sent_calls)}
